@@ -2,6 +2,7 @@ package rules
 
 import (
 	"fmt"
+	"go/types"
 	"sort"
 
 	"golang.org/x/tools/go/ssa"
@@ -91,7 +92,7 @@ func (c *Ctx) mustFollowOpt(fn *ssa.Function, what string, starts []start, b Sel
 				return true
 			})
 			for e := range be {
-				if cut[e] {
+				if cut[e] || ir.NilGuardEdges(fn)[e] {
 					continue // a pruned / tabled edge that happens to be a back edge
 				}
 				if arrived[e.From] {
@@ -104,6 +105,9 @@ func (c *Ctx) mustFollowOpt(fn *ssa.Function, what string, starts []start, b Sel
 				return false
 			}
 			if isExit(in) {
+				if r, isRet := in.(*ssa.Return); isRet && c.refusalOK && isRefusal(r) {
+					return false
+				}
 				bad = append(bad, fmt.Sprintf("exit at %s reachable from %s without %s", c.at(in), s.desc, bname))
 				return false
 			}
@@ -266,4 +270,16 @@ func (c *Ctx) successEdges(g guard) []start {
 		out = append(out, atEdge(c, s.br.Edge(), "success edge of "+g.name+" at "+c.at(s.site)))
 	}
 	return out
+}
+
+// isRefusal: the return hands back an error that is known not to be nil.
+func isRefusal(r *ssa.Return) bool {
+	if len(r.Results) == 0 {
+		return false
+	}
+	last := r.Results[len(r.Results)-1]
+	if !types.Identical(last.Type(), types.Universe.Lookup("error").Type()) {
+		return false
+	}
+	return !errSuccess(r)
 }
